@@ -523,13 +523,15 @@ func RunRenderDoc(c *hx.Ctx, idx int, keep bool) {
 	var dpkg docxPkg
 	var opkg odtPkg
 	var opLine string
+	fr := flavourStream(c, idx)
+	d.Flavour = pickFlavour(fr, F)
 	if F == "docx" {
 		dpkg = writeDocx(r, d)
-		os.WriteFile(path, writers.Zip(dpkg.Members), 0o644)
+		os.WriteFile(path, writers.Zip(applyFlavour(fr, F, d.Flavour, dpkg.Members)), 0o644)
 		opLine = "c16.docx " + dpkg.Doc.Sexp() + " " + sexpOrDash(dpkg.Styles)
 	} else {
 		opkg = writeOdt(r, d)
-		os.WriteFile(path, writers.Zip(opkg.Members), 0o644)
+		os.WriteFile(path, writers.Zip(applyFlavour(fr, F, d.Flavour, opkg.Members)), 0o644)
 		opLine = "c16.odt " + opkg.Content.Sexp() + " " + sexpOrDash(opkg.Styles)
 	}
 	if keep {
@@ -606,6 +608,9 @@ func RunRenderDoc(c *hx.Ctx, idx int, keep bool) {
 		}
 	}
 	c.Count(F + "-render-document")
+	if d.Flavour != "" {
+		c.Count(F + "-render-markup-flavour:" + d.Flavour)
+	}
 	if d.NumSeed != 0 {
 		c.Count(F + "-render-drawn-numbering/list-styles")
 	}
